@@ -220,6 +220,7 @@ def s_sum(ex, st, fr, args, info):
     items = it_drain(ex, st, to_iter(ex, st, args[0]))
     m = re.search(r'sum::<(\w+)>', info['raw'])
     ty = m.group(1)
+    ex.user.setdefault('sum_types', []).append((ty, len(items)))
     acc = mkint(0, ty)
     w = WIDTH[ty]
     for x in items:
